@@ -47,6 +47,7 @@ CHECKS = {
             dict(harness="C02_D2B2", cover=["arith-in-parentheses"], bounds="derivations of depth 2 with at most 2 non-default productions"),
             dict(harness="C02_Reserved", bounds="16 reserved words x {argument, for item, case pattern, redirection target, assignment value, case word}"),
             dict(harness="C02_Closers", bounds="16 programs with a reserved word directly after ) } fi done esac, against the same text with a separator"),
+            dict(harness="C02_Cross", bounds="14 cross-construct programs (parenthesis bookkeeping of case patterns, subshells, function definitions, substitutions vs the (( )) command), each against an equivalent spelling"),
         ],
         "thorough": [
             dict(harness="C02_D1B2"),
@@ -54,6 +55,7 @@ CHECKS = {
             dict(harness="C02_D2B3", cover=["arith-in-parentheses"], bounds="derivations of depth 2 with at most 3 non-default productions", timeout="40m"),
             dict(harness="C02_Reserved"),
             dict(harness="C02_Closers"),
+            dict(harness="C02_Cross"),
         ],
     },
     "C03": {
@@ -298,7 +300,8 @@ CHECKS = {
             dict(harness="C19_Measure_F3", cover=["accepted", "rejected"], bounds="accepted inputs among all 3-rune strings over D: Pos/End of every node and comment"),
             dict(harness="C19_Print_F3", cover=["accepted"], bounds="accepted inputs among all 3-rune strings over D x symbolic Config (5 x 64-bit Style, Case, Width 0..8)"),
             dict(harness="C19_Expand_F2", cover=["accepted"], bounds="accepted inputs among all 2-rune strings over D x all 2^64 ExpMode x all 2^64 Option values, Args={sh,p1,''}"),
-            dict(harness="C19_Measure_T1", cover=["accepted"], bounds="43 templates x one symbolic hole"),
+            dict(harness="C19_Measure_T1", cover=["accepted"], bounds="57 templates x one symbolic hole"),
+            dict(harness="C19_Expand_T0Q", cover=["accepted"], bounds="57 concrete templates x 6 documented ExpModes x NoGlob|NoUnset on/off x {0,1,2} positional parameters"),
             dict(harness="C19_Eval_F2", cover=["error", "value"], bounds="Eval of all 2-rune strings over D"),
             dict(harness="C19_Match_22", bounds="patterns of 2 symbols over {a b * ? [ ] ! ^ - \\ . newline} x subjects of 2 over {a b - ] . newline} x all Mode values"),
             dict(harness="C19_Glob_3", bounds="Glob of all 3-symbol patterns over {a * ? [ ] \\ / .} on an empty file system"),
